@@ -65,10 +65,19 @@ struct FlushAtExit(std::cell::RefCell<Option<(Arc<Vec<essential_lock::StdLock<u6
 impl Drop for FlushAtExit {
     fn drop(&mut self) {
         if let Some((locks, l, d)) = self.0.borrow_mut().take() {
-            locks[l].apply(|v| *v |= d);
+            // an update like any other: what it read takes its place in the chain
+            let read = locks[l].apply(|v| {
+                let r = *v;
+                *v = r | d;
+                r
+            });
+            EXIT_OBS.lock().unwrap().push((l, read, d, 0, 0));
         }
     }
 }
+/// What the updates made from thread-local destructors read (those threads have no other way
+/// to report back).
+static EXIT_OBS: std::sync::Mutex<Vec<(usize, u64, u64, u64, u64)>> = std::sync::Mutex::new(Vec::new());
 thread_local! {
     static FLUSH: FlushAtExit = const { FlushAtExit(std::cell::RefCell::new(None)) };
 }
@@ -174,6 +183,13 @@ fn lock_mode(seed: u64) -> i32 {
             }
         }
     }
+    // joined threads have run their thread-local destructors
+    let at_exit: Vec<_> = EXIT_OBS.lock().unwrap().drain(..).collect();
+    if at_exit.len() != exit_updates.len() {
+        println!("VIOLATION-DETAIL lock seed={seed}: {} updates were to be made at thread exit, {} were made", exit_updates.len(), at_exit.len());
+        return 1;
+    }
+    all.extend(at_exit);
     for l in 0..n_locks {
         let mut obs: Vec<_> = all.iter().filter(|o| o.0 == l).collect();
         obs.sort_by_key(|o| o.1.count_ones());
@@ -197,10 +213,8 @@ fn lock_mode(seed: u64) -> i32 {
                 return 1;
             }
         };
-        // updates made by thread-local destructors at thread exit (joined: they are done)
-        let at_exit: u64 = exit_updates.iter().filter(|(el, _)| *el == l).map(|(_, d)| *d).sum();
-        if fin != cur | at_exit {
-            println!("VIOLATION-DETAIL lock {l}: final value {fin:#x}, all updates {:#x} (of which at thread exit {at_exit:#x})", cur | at_exit);
+        if fin != cur {
+            println!("VIOLATION-DETAIL lock {l}: final value {fin:#x}, all updates {cur:#x}");
             return 1;
         }
     }
